@@ -4,7 +4,10 @@
 package bfs
 
 import (
+	"fmt"
 	"runtime"
+	"runtime/debug"
+	"strings"
 	"sync"
 	"sync/atomic"
 	"time"
@@ -51,6 +54,16 @@ func Run(c Config) Result {
 		}
 		locks[s].Unlock()
 		return !dup
+	}
+	visit := c.Visit
+	c.Visit = func(h []uint8) (k uint64, ok bool, v string) {
+		defer func() {
+			if r := recover(); r != nil {
+				k, ok = 0, true
+				v = fmt.Sprintf("panic\x00the code under test panicked after history %v: %v\n%s", h, r, trimStack(string(debug.Stack())))
+			}
+		}()
+		return visit(h)
 	}
 	k0, _, v0 := c.Visit(nil)
 	if v0 != "" {
@@ -137,4 +150,23 @@ func Run(c Config) Result {
 		frontier = next
 	}
 	return res
+}
+
+func trimStack(s string) string {
+	var out []string
+	for _, l := range strings.Split(s, "\n") {
+		if strings.Contains(l, "go-sse") && !strings.Contains(l, "/verif/") {
+			if i := strings.Index(l, " +0x"); i >= 0 {
+				l = l[:i]
+			}
+			if i := strings.Index(l, "(0x"); i >= 0 {
+				l = l[:i]
+			}
+			out = append(out, strings.TrimSpace(l))
+		}
+		if len(out) >= 8 {
+			break
+		}
+	}
+	return strings.Join(out, "\n")
 }
